@@ -47,6 +47,44 @@ def index_range(r: R, chk, qual: str, param_hint: str, want, rule="INDEX-RANGE")
            func=qual, construct="index range of the validator")
 
 
+def row_index(r: R, chk, qual: str, rule="ROW-INDEX"):
+    """The table of every sub-degree j has npts rows (the library pads it), and the validator lets -npts .. npts-1 through.  The
+    constructor of the evaluator is folded for npts = 1..6, degree = 0..3, every j and every admissible integer first index: what
+    it stores as first index has to select row `i mod npts` of an npts-row table (the index itself, or the index normalised with
+    npts — not with the number len(U) - j - 1 of functions of degree j)."""
+    from .extra import UNK, _ev, _run_block
+
+    fi = r.prog.func(qual)
+    params = [p for p in fi.params if p not in ("self", "cls")]
+    store = next((a for a in ast.walk(fi.node) if isinstance(a, ast.Assign) and any(isinstance(t, ast.Attribute) and t.attr.endswith("first_index") for t in a.targets)), None)
+    chk.floor(rule, f"store of the first index in {qual}", 1 if store is not None and len(params) >= 3 else 0, 1)
+    fp, ip, jp = params[0], params[1], params[2]
+    bad = None
+    undecided = False
+    for npts in range(1, 7):
+        for degree in range(0, min(npts, 4)):
+            for j in range(0, degree + 1):
+                for i in range(-npts, npts):
+                    kv = tuple(range(npts + degree + 1))
+                    env = {ip: i, jp: j, ".npts": npts, ".degree": degree, ".knotvector": kv, ".internal": kv}
+                    if not _run_block(fi.node.body, env, degree, store):
+                        undecided = True
+                        continue
+                    v = _ev(store.value, env, degree)
+                    if v is UNK or not isinstance(v, int):
+                        undecided = True
+                        continue
+                    ok = -npts <= v < npts and v % npts == i % npts
+                    if not ok and bad is None:
+                        bad = (npts, degree, j, i, v)
+    if undecided and bad is None:
+        chk.note(f"{rule}: {qual}: the stored first index could not be folded: not decided")
+        return
+    chk.ob(rule, f"{qual}: the stored first index selects row i mod npts (npts = 1..6, every j)", bad is None, loc=f"{fi.module}.py:{store.lineno}",
+           detail="" if bad is None else f"{qual}: with npts = {bad[0]}, degree = {bad[1]}, j = {bad[2]} the first index {bad[3]} is stored as {bad[4]}: row {bad[4]} of the npts-row table is " + ("outside the table (IndexError at evaluation)" if not (-bad[0] <= bad[4] < bad[0]) else f"not row {bad[3] % bad[0]}") + " — a negative index of a sub-degree table selects a neighbouring basis function",
+           func=qual, construct="negative first index resolved with the wrong length")
+
+
 def run(m, chk):
     r = R(m, chk)
     chk.explanation = (
@@ -54,7 +92,7 @@ def run(m, chk):
         "(the second index of the evaluator built in eval depends on self.degree); the evaluator's result depends on nodes, knot vector, both indices and weights; span(nodes) precedes the table lookup so outside nodes raise "
         "ValueError which escapes. The values (non-negativity, support, partition of unity) and negative-index / slice semantics are not decided."
     )
-    chk.decides = ["SLICE-REBUILD (a slice index resolved against npts is never rebuilt with slice(*s.indices(n)), which loses negative steps)", "INDEX-RANGE (the validators accept exactly -npts .. npts-1 and 0 .. degree)", "GATE(index validators)", "DEP-MAY", "GATE-SPAN", "X-ESCAPE", "PURE", "FRESH-EVALUATOR (f(u) applies an evaluator built in the same call, never a kept one)"]
+    chk.decides = ["ROW-INDEX (what the evaluator stores for an integer first index selects row i mod npts of the npts-row table, for every j)", "SLICE-REBUILD (a slice index resolved against npts is never rebuilt with slice(*s.indices(n)), which loses negative steps)", "INDEX-RANGE (the validators accept exactly -npts .. npts-1 and 0 .. degree)", "GATE(index validators)", "DEP-MAY", "GATE-SPAN", "X-ESCAPE", "PURE", "FRESH-EVALUATOR (f(u) applies an evaluator built in the same call, never a kept one)"]
     chk.not_decided = ["Function(U)[i, j](u) = N_i,j(u) as values", "partition of unity", "negative indices / slices select the right rows"]
     ctx = r.root(GI)
     build = [c for c in ctx.calls if any(f.qual == FE + "__init__" for f in c.callees)]
@@ -69,6 +107,7 @@ def run(m, chk):
             raised = {raised_type(n) for n in ast.walk(fi.node) if isinstance(n, ast.Raise)}
             ok = set(excs) <= raised
             chk.ob("GATE-INDEX", f"{fi.qual} raises {' and '.join(excs)}", ok, loc=f"functions.py:{fi.node.lineno}", detail="" if ok else f"{fi.qual} raises only {sorted(x for x in raised if x)}", func=fi.qual, construct="validator exception types")
+    row_index(r, chk, FE + "__init__")
     from .extra import slice_rebuild
 
     slice_rebuild(r, chk, ["functions"])
